@@ -253,7 +253,8 @@ def main(tier):
         c.out_of_bounds += ["fault sequences longer than 3 frames per direction, 6 in the single-direction run (later frames are delivered; no random continuation)", "more than 3 host / 2 NCP payloads",
                             "window 3 and other start numbers (thorough)", "NCP behaviours that are not specification-conforming"]
     else:
-        c.run("checks.c01:LINK", {"mh": 2, "mn": 2, "F": 4, "windows": [1, 2, 3], "starts": [[0, 0], [6, 7]]})
+        c.run("checks.c01:LINK", {"mh": 2, "mn": 2, "F": 4, "windows": [2], "starts": [[6, 7]]}, wall_s=3000)
+        c.run("checks.c01:LINK", {"mh": 2, "mn": 2, "F": 3, "windows": [1, 2, 3], "starts": [[0, 0], [6, 7]]})
         c.run("checks.c01:LINK", {"mh": 1, "mn": 3, "F": 4, "windows": [2, 3], "starts": [[5, 6]], "faults": ["deliver", "drop", "corrupt", "duplicate"]})
         c.run("checks.c01:LINK", {"mh": 3, "mn": 2, "F": 3, "windows": [1, 2], "starts": [[7, 6]], "cancel": True})
         c.run("checks.c01:LINK", {"mh": 2, "mn": 1, "F": 3, "windows": [2], "starts": [[3, 4]], "ncp_start": [0.0, 0.015, 1.62]})
